@@ -441,6 +441,10 @@ func execC20(x *Ctx, sc *wire.Scenario) *wire.Result {
 						// (the engine's row bookkeeping for buffers with embedded newlines -- C04's listed multi-line
 						// classes -- as the watcher's redisplay meets it)
 						cls += ":buffer-of-several-lines"
+					} else if sc.Plan.TypeWithReport > 0 {
+						// the user's next key processed while the watcher's redisplay waits for its cursor report: two
+						// redisplays write at once (the class listed for Printf under rule 5, with a signal instead)
+						cls += ":key-typed-during-the-redisplay"
 					}
 					return violation(res, "LAYOUT", "C20.signal-alone-leaves-the-screen-as-it-was", name(cls),
 						fmt.Sprintf("disturbances %v (signals only, the terminal kept its size): at the input wait after %d keys the screen is %q; the undisturbed run has %q", firedList, lastW.Tokens, b, a))
